@@ -2,188 +2,203 @@ module kinds_mod
   implicit none
   integer, parameter :: jprb = selected_real_kind(13, 300)
   integer, parameter :: jpim = selected_int_kind(9)
+  integer, parameter :: npar = 3
+  integer, parameter :: npar2 = 2
+  real(kind=jprb), parameter :: rpar = 1.5_jprb
 end module kinds_mod
-MODULE kmod
-  USE kinds_mod, only: JPRB
-  implicit none
+module KMOD
+  USE Kinds_mod, ONLY: jprb, NPAR, rpar
+  Implicit none
   type :: ttype
-    REAL(kind=jprb) :: P
-    real(kind=JPRB) :: q(5)
+    real(Kind=JPRB) :: p
+    REAL(kind=jprb) :: q(5)
     INTEGER :: KK
   end type Ttype
-CONTAINS
-  SUBROUTINE kern(n, M, a1, A2, C1, c2, k1, s1, s2, S3, i1, I2, lg1, T1)
+Contains
+  SUBROUTINE kern(n, M, a1, A2, c1, d1, k1, s1, s2, s3, I1, I2, LG1, T1)
     use kinds_mod, ONLY: jpim, Jprb
-    Integer, INTENT(IN) :: n
-    integer, intent(in) :: m
-    REAL(kind=jprb), intent(In) :: a1(n)
-    real(kind=Jprb), INTENT(INOUT) :: A2(n)
-    REAL(KIND=JPRB), intent(In) :: c1(n, m)
-    real(KIND=jprb), intent(in) :: C2(n, m)
-    INTEGER, intent(inout) :: k1(n)
-    real(Kind=Jprb), intent(IN) :: S1
-    REAL(Kind=jprb), Intent(INOUT) :: s2
-    REAL(KIND=JPRB), intent(Out) :: S3
-    integer, INTENT(in) :: i1
-    integer, INTENT(INOUT) :: I2
-    Logical, INTENT(in) :: LG1
-    type(Ttype), intent(Inout) :: t1
-    real(KIND=jprb) :: X1
-    real(kind=jprb) :: x2
-    integer :: J1
-    logical :: Lg2
-    real(KIND=jprb) :: f1(4)
-    INTEGER :: i, J, K
-    REAL(KIND=JPRB) :: ZW(n), zs, zv(n, M)
-    real(kind=jprb) :: zf(4)
-    integer :: Jz, kz
-    Real(kind=jprb) :: zp, ZU1, zu2
-    real(KIND=JPRB) :: zq(1:N, 3, 1:2)
-    REAL(KIND=JPRB) :: sfn, sfx
-    Sfn(sfx) = sfx*2.0_jprb + 1.0_jprb
+    integer, INTENT(IN) :: n
+    Integer, intent(in) :: m
+    REAL(kind=jprb), INTENT(in) :: A1(N)
+    REAL(kind=jprb), intent(inout) :: A2(n)
+    REAL(kind=jprb), Intent(in) :: c1(n, m)
+    REAL(KIND=JPRB), INTENT(inout) :: d1(-1:n - 2)
+    integer, INTENT(inout) :: k1(N)
+    REAL(KIND=JPRB), intent(in) :: S1
+    real(kind=JPRB), Intent(inout) :: s2
+    real(KIND=JPRB), INTENT(OUT) :: s3
+    INTEGER, intent(IN) :: i1
+    INTEGER, intent(inout) :: i2
+    LOGICAL, INTENT(In) :: lg1
+    type(ttype), INTENT(INOUT) :: T1
+    real(kind=JPRB) :: x1
+    real(KIND=jprb) :: x2
+    integer :: j1
+    integer :: j2
+    LOGICAL :: LG2
+    REAL(kind=jprb) :: f1(4)
+    integer :: I, j, k
+    REAL(kind=jprb) :: zw(n), zs, zv(n, M)
+    REAL(Kind=Jprb) :: zf(4)
+    integer :: jz, kz
+    REAL(KIND=Jprb) :: zp, ZU1, zu2
+    REAL(kind=jprb) :: zq(n, 3, 2)
+    INTEGER, PARAMETER :: jploc = selected_real_kind(13, 300)
+    REAL(kind=jploc) :: ZLOC
     ZQ = 0.75_jprb
-    Zw = 0.5_jprb
+    zw = 0.5_jprb
     zv = 0.25_jprb
     ZF = 1.0_jprb
-    zs = 0.0_jprb
-    zs = sfn(s1) + sfn(zs + 0.5_jprb)
-    s3 = 3.0_jprb
-    x1 = 0.25_jprb
+    ZS = 0.0_jprb
+    ZLOC = 1.0_jploc
+    S3 = 1.0_jprb
+    x1 = 3.0_jprb
     X2 = 1.0_jprb
-    j1 = 3
-    LG2 = .false.
-    f1 = 10.0_jprb
-    if (S2 <= T1%P + S1) then
-      T1%q(1) = MIN(MAX(c1(1, 1)*(F1(1) - c2(N, 1)), -50.0_jprb), 50.0_jprb)
-    ELSE If ((a1(N) >= 1.0_jprb) .or. (T1%P > s1)) then
-      X1 = sin(X1)
-      T1%kk = min(max(M + i2 + t1%KK, -40), 40)
-    ELSE
-      if (.not. (lg1)) THEN
-        J1 = 4
-        do while (j1 > 0)
-          t1%Q(2) = (C2(N, m) + s3 + real(i2, Jprb)) / (1.0_jprb + ABS(c2(n, m) + S3 + real(i2, JPRB)))
-          j1 = j1 - 1
-        end DO
-        call hsub(n, a1, T1%p, s3)
+    j1 = 11
+    J2 = 11
+    Lg2 = .false.
+    f1 = 1.0_jprb
+    do i = 1, n
+      lp1: DO J = 1, n, 2
+        a2(1:n - 1) = MIN(max(S2 + T1%P, -50.0_jprb), 50.0_jprb)
+        do k = n, 1, -1
+          ! TODO
+        END do
+        d1(i - 2) = 2.0_jprb*cos(real(I + j2, jprb) + A1(i))
+      END DO LP1
+      if (LG1) then
+        ASSOCIATE (Z00 => S1)
+          ! TODO
+          s3 = sum(C1) / (1.0_jprb + REAL(N*m, jprb))
+        END associate
+      ELSE IF ((f1(1) >= x2) .and. (m > j2)) Then
+        call isub(n, A1, sout=X1, Xio=T1%p)
       else
-        DO I = 1, N
-          a2 = sin(a1)
-          A2 = SIN(1.5_jprb / (1.0_jprb + abs(X1)))
-          a2(:) = SIN(t1%p)
-        End do
-        if (K1(1) / (1 + abs(j1)) /= k1(N) + 3) Then
-          s2 = (s3*t1%P - Sin(a1(1 + MOD(2, N)))) / (1.0_jprb + ABS(s3*t1%p - Sin(a1(1 + mod(2, N)))))
-        ELSE if (s1 <= t1%P) then
-          T1%q(5) = Sin(real(t1%KK, jprb)**2)
-        Else
-          if (t1%q(3) >= s3) LG2 = lg2
-          Call isub(N, a2, S3, S2)
-        END IF
-      END IF
-      S3 = sum(c2) / (1.0_jprb + real(n*M, jprb))
-    end IF
-    s3 = MIN(MAX(hele(x2 / (1.0_jprb + abs(X1)), INT(max(min(c2(1 + Mod(3, n), 1 + mod(2, m)), 90.0_jprb), -90.0_jprb))) + (-0.5_jprb), -50.0_jprb), 50.0_jprb)
-    j1 = 5 + n
-    !$loki outline
-    lg2 = .not. (T1%q(3) <= A1(1))
-    !$loki end outline
-    CALL HLOW(n, ZQ(:, 1, :), zs)
-    DO Jz = 1, n
-      ZW(jz) = a1(jz)*S1
-      !$loki loop-fission
-      a2(JZ) = ZW(jz) + 0.25_jprb
+        s3 = 2.0_jprb*cos(((C1(I, 1) + c1(i, M))**2)**2)
+      end if
+      SELECT case (MODULO(j2, 7))
+      case (3:4)
+        T1%Q(4) = min(max(real(i2 - (i + 1), Jprb), -50.0_jprb), 50.0_jprb)
+        ! x = 1 ! y
+      CASE (0)
+        WHERE (A1 <= a1*A2) D1 = Min(max(A1 + A1*10.0_jprb, -50.0_jprb), 50.0_jprb)
+      end Select
     end DO
-    zw(1:n) = A1(1:n) + 0.5_jprb
-    Zv(:, :) = ZV(:, :)*s1
-    ZW(:) = zw + A1
-    !$loki loop-unroll depth(1)
-    DO JZ = 1, 2
-      DO kz = 2, 4, 2
-        ZF(KZ) = ZF(KZ) + REAL(jz*kz, jprb)
-      END do
+    ! note: end do
+    lp2: do i = 2, m
+      Call isub(n, a1, s3, x2)
+      J2 = J2
+    end DO lp2
+    if (.not. (n > 5)) then
+      DO i = 1, m
+        ! note: end do
+        LG2 = (D1(1 - 2)) > merge(a1(1 + mod(5, N)), C1(1, I), j2 > j1)
+        LP3: do j = 1, N
+          s2 = (exp(-abs(a2(j))) + f1(2)) / (1.0_jprb + abs(exp(-abs(a2(j))) + f1(2)))
+        end do LP3
+      End Do
+    else
+      LG2 = .not. (c1(1 + mod(5, n), 1) < 7.5_jprb)
+    END if
+    T1%p = minval(f1) / (1.0_jprb + REAL(n*M, JPRB))
+    A2(1) = 2.0_jprb*COS(s1)
+    where (A2 <= a1 / (1.0_jprb + Abs(d1)))
+      a2 = MIN(max(ABS(2.0_jprb - (S3)), -50.0_jprb), 50.0_jprb)
+      a2 = sin(3.0_jprb)
+    end Where
+    !$loki remove
+    zs = ZS + 1.0_jprb
+    DO jz = 1, n
+      zw(jz) = ZS
+    END DO
+    !$loki end remove
+    call hdup(n, N, A1, zs)
+    do jz = 1, N
+      zp = a1(jz)*S1
+      zw(jz) = zp + 0.5_jprb
+    end DO
+    !$loki outline name(kern_o1) in(n,a1,s1) inout(a2)
+    do jz = 1, N
+      A2(jz) = a2(Jz) + a1(jz)*s1
+    end do
+    !$loki end outline
+    call hlow(N, zq(:, 1, :), zs)
+    zs = hfun(S1, i1) + HFUN(zs, 2)
+    !$loki loop-fusion group(g1)
+    DO jz = 1, N
+      zw(JZ) = A1(jz) + s1
     end do
     !$loki loop-fusion group(g1)
     do jz = 1, n
-      zw(jz) = A1(jz) + S1
-    END Do
-    !$loki loop-fusion group(g1)
-    do JZ = 1, N
-      A2(Jz) = ZW(jz)*0.5_jprb
+      a2(JZ) = zw(jz)*0.5_jprb
+    end do
+    zw(1:N) = A1(1:N) + 0.5_jprb
+    Zv(:, :) = zv(:, :)*S1
+    zw(:) = ZW + a1
+    !$loki loop-unroll depth(1)
+    Do JZ = 1, 2
+      do KZ = 2, 4, 2
+        zf(kz) = ZF(kz) + real(JZ*kz, JPRB)
+      end do
     end Do
-    DO jz = 1, N
-      zp = a1(Jz)*s1
-      ZW(JZ) = zp + 0.5_jprb
-    end do
-    !$loki outline name(kern_o1) in(n,a1,s1) inout(a2)
-    Do jz = 1, N
-      a2(JZ) = a2(JZ) + a1(jz)*s1
-    end do
-    !$loki end outline
-    CALL Hdup(n, n, a1, Zs)
-    !$loki remove
-    zs = ZS + 1.0_jprb
-    do jz = 1, N
-      Zw(jz) = Zs
-    end do
-    !$loki end remove
+    IF (LG1) then
+      zs = 3.0_jprb
+    else if (.false.) THEN
+      zs = 7.5_jprb
+    ELSE
+      zs = s1
+    end IF
   contains
-  Subroutine isub(nn, xin, XIO, Sout)
-    integer, intent(IN) :: nn
-    REAL(kind=jprb), INTENT(in) :: XIN(nn)
-    real(kind=Jprb), Intent(inout) :: xio
-    REAL(kind=JPRB), intent(out) :: SOUT
-    INTEGER :: ii
-    sout = s1
-    do ii = 1, Min(nn, N)
-      sout = Sout + xin(II)*0.25_jprb
-    end DO
-    SOUT = Cos(sout)
-    XIO = Xio*0.5_jprb + SOUT
-  END SUBROUTINE isub
-  function IFUN(x, k) RESULT(R)
-    real(KIND=JPRB), intent(in) :: X
-    integer, INTENT(IN) :: k
-    REAL(kind=JPRB) :: R
-    R = x + S1*real(K + i1, jprb)*0.01_jprb
-  END Function ifun
-  END SUBROUTINE kern
-  SUBROUTINE hsub(nn, xin, xio, sout)
-    integer, intent(in) :: nn
-    real(kind=jprb), Intent(IN) :: xin(NN)
-    REAL(KIND=JPRB), Intent(inout) :: XIO
-    REAL(Kind=jprb), intent(OUT) :: Sout
-    INTEGER :: ii
-    sout = 0.0_jprb
-    do ii = 1, nn
-      SOUT = SOUT + XIN(ii)*2.0_jprb
-    END do
-    SOUT = Sout / (1.0_jprb + real(nn, jprb))
-    xio = SIN(Xio + sout)
-  end subroutine HSUB
-  FUNCTION hfun(x, K) result(r)
-    REAL(KIND=JPRB), intent(In) :: X
-    integer, INTENT(in) :: k
+  subroutine ISUB(nn, xin, xio, sout)
+    Integer, INTENT(in) :: NN
+    real(KIND=jprb), INTENT(in) :: XIN(nn)
+    real(kind=jprb), intent(Inout) :: XIO
+    REAL(KIND=Jprb), intent(out) :: SOUT
+    integer :: ii
+    SOUT = S1
+    do ii = 1, min(nn, n)
+      sout = sout + xin(ii)*1.5_jprb
+    End do
+    sout = cos(sout)
+    xio = xio*0.5_jprb + SOUT
+  end subroutine isub
+  function ifun(x, k) RESULT(R)
+    real(kind=jprb), INTENT(IN) :: x
+    integer, intent(in) :: k
     real(KIND=jprb) :: R
-    r = x*7.5_jprb + Real(mod(k, 5), jprb)
-    IF (k > 3) r = r - 3.0_jprb
-  END FUNCTION Hfun
-  elemental FUNCTION hele(X, k) Result(r)
-    real(kind=jprb), Intent(in) :: X
-    integer, Intent(IN) :: K
-    REAL(kind=jprb) :: r
-    r = cos(X) + REAL(k, jprb)*0.25_jprb
-  END function hele
-  SUBROUTINE HDUP(N1, N2, XIN, SOUT)
-    integer, Intent(in) :: n1, n2
-    real(Kind=JPRB), intent(In) :: xin(N1)
-    real(Kind=jprb), intent(Inout) :: sout
-    sout = SOUT + xin(1)*real(n2, jprb)
-  End subroutine hdup
-  subroutine hlow(NN, x2, Sout)
-    integer, intent(in) :: NN
-    real(KIND=Jprb), intent(in) :: x2(NN, 2)
-    REAL(KIND=jprb), intent(INOUT) :: sout
-    sout = Sout + x2(1, 1) + x2(NN, 2)
-  End Subroutine hlow
-END Module Kmod
+    r = x + s1*REAL(k + i1, JPRB)*0.01_jprb
+  end FUNCTION ifun
+  END subroutine KERN
+  SUBROUTINE HSUB(NN, xin, xio, SOUT)
+    integer, intent(in) :: nn
+    real(kind=jprb), intent(IN) :: xin(NN)
+    REAL(kind=jprb), intent(Inout) :: xio
+    real(kind=jprb), intent(out) :: Sout
+    integer :: ii
+    Sout = 0.0_jprb
+    do ii = 1, nn
+      SOUT = SOUT + XIN(ii)*0.5_jprb
+    end do
+    SOUT = sout / (1.0_jprb + real(Nn, JPRB))
+    xio = sin(xio + SOUT)
+  end subroutine hsub
+  function Hfun(x, k) result(r)
+    real(KIND=jprb), Intent(in) :: X
+    integer, intent(IN) :: k
+    real(KIND=jprb) :: R
+    r = x*7.5_jprb + real(MOD(k, 5), jprb)
+    If (k > 3) R = r - 7.5_jprb
+  END function hfun
+  SUBROUTINE hdup(N1, n2, XIN, sout)
+    INTEGER, intent(IN) :: n1, n2
+    REAL(KIND=JPRB), intent(in) :: XIN(n1)
+    real(KIND=jprb), intent(inout) :: sout
+    SOUT = sout + XIN(1)*real(n2, JPRB)
+  end SUBROUTINE HDUP
+  subroutine HLOW(nn, X2, sout)
+    integer, Intent(in) :: nn
+    REAL(Kind=JPRB), INTENT(in) :: X2(nn, 2)
+    real(kind=jprb), intent(inout) :: sout
+    sout = sout + X2(1, 1) + X2(Nn, 2)
+  end subroutine hlow
+end MODULE kmod
